@@ -1,6 +1,6 @@
 (* Model/C14Check.v — Z / Qc instances and certificate checks for nvecs evaluated by the generated cases. *)
 From Coq Require Import List Arith Bool ZArith QArith Qabs Qcanon.
-From PV Require Import Base.Index Base.Sum Np.Array Model.Sparse Model.Repr Model.Harness Model.C10Tucker Model.C10Check Model.C14Nvecs Model.C14Gram Model.C01Ttm Model.C14Unfold.
+From PV Require Import Base.Index Base.Sum Np.Array Model.Sparse Model.Repr Model.Harness Model.C10Tucker Model.C10Check Model.C14Nvecs Model.C14Gram Model.C01Ttm Model.C14Unfold Model.C01Coo Model.C14SpPath Model.C14SpChain.
 Import ListNotations.
 Local Open Scope Qc_scope.
 
@@ -40,6 +40,29 @@ Definition gram_tsp_code (GS : sparse Z) (Us : list (list (list Z))) (n : nat) (
   let Hd := ttensor_full_impl 0%Z Z.add Z.mul (mkT (full 0%Z GS) (tucker_vs 0%Z Z.add Z.mul Us n)) in
   omat_eqb (gram_tsp_tm 0%Z Z.add Z.mul (Z.eqb 0) (HSparse (to_sptensor 0%Z (Z.eqb 0) Hd)) GS (nth n Us []) n) Y &&
   omat_eqb (gram_tsp_tm 0%Z Z.add Z.mul (Z.eqb 0) (HDense Hd) GS (nth n Us []) n) Y.
+
+(* wave 3b — sptensor.nvecs' code path (C14_gram_sparse_code): reshape over the generated tt_sub2ind / tt_ind2sub, squeeze, spmatrix,
+   transpose; the Gram matrix formed on it, and the COO matrix spmatrix() returned inside nvecs as RECORDED (shape, rows, columns, data
+   in stored order) against the model's tnt (its transpose) *)
+Definition gram_sp_path_code (Sp : sparse Z) (n : nat) := gram_sp_code_path 0%Z Z.add Z.mul Sp n.
+Definition sp_tnt_recorded_ok (Sp : sparse Z) (n : nat) (shp rows cols : list nat) (data : list Z) : bool :=
+  match sp_nvecs_tnt 0%Z Sp n with
+  | Some C => nvec_eqb (coo_shape C) (rev shp) &&
+              nmat_eqb (coo_subs C) (map (fun rc => [snd rc; fst rc]) (combine rows cols)) &&
+              vec_eqb (coo_data C) data
+  | None => false
+  end.
+Definition sp_path_refused (Sp : sparse Z) (n : nat) : bool :=
+  match sp_nvecs_tnt 0%Z Sp n with None => true | Some _ => false end.
+
+(* sparse-core branch with the H the code computes (C14_gram_tucker_sparse_core_code): the sptensor.ttm chain; H as RECORDED
+   (core.ttm(V) is a dense tensor: shape and F-order data) against the chain model *)
+Definition sp_chain_code (GS : sparse Z) (Us : list (list (list Z))) (n : nat) : dense Z :=
+  sp_ttm_chain 0%Z Z.add Z.mul (Z.eqb 0) GS (tucker_vs 0%Z Z.add Z.mul Us n).
+Definition gram_tsp_chain_code (GS : sparse Z) (Us : list (list (list Z))) (n : nat) (Y : list (list Z)) : bool :=
+  omat_eqb (gram_tsp_tm 0%Z Z.add Z.mul (Z.eqb 0) (HDense (sp_chain_code GS Us n)) GS (nth n Us []) n) Y.
+Definition sp_chain_recorded_ok (GS : sparse Z) (Us : list (list (list Z))) (n : nat) (H : dense Z) : bool :=
+  dense_eqb (sp_chain_code GS Us n) H.
 
 Definition qcol (V : qmatrix) (j : nat) : list Qc := map (fun row => nth j row q0) V.
 Definition qdot (a b : list Qc) : Qc := sum_over q0 Qcplus (combine a b) (fun p => fst p * snd p).
